@@ -124,6 +124,11 @@ def run(ctx):
                 if fl[-1:] == ['proto_state'] and not blk['cleanup']:
                     wr.append(bi)
         gate = g.gate_edges(lambda d, v, vals: isinstance(d, tuple) and d[0] == 'discr' and isinstance(d[1], tuple) and d[1][0] == 'entry' and Fn.path_of(d[1][1])[-1:] == [('f', 'proto_state')] and v == 0)
+        # the same, spelled with the vacancy-only API: proto_state.get_or_insert_with(..) (fills the slot only when it is None)
+        goi = [b_ for b_, t_ in g.calls(r'Option::<T>::get_or_insert(_with)?$') if 'proto_state' in short(g.argv(b_, 0)) and any(x == ('param', 4) for x in walk(g.argv(b_, 0)))]
+        if not wr and g.n_sites(goi) == 1:
+            rep.ok(r2, g.id + ':create-once', 'proto_state is filled through Option::get_or_insert_with (only when it is None)', g.loc(goi[0]))
+            continue
         rep.check(r2, len(wr) == 1 and bool(gate) and not g.must_pass(gate, wr), g.id + ':create-once', 'proto_state is assigned only on the None edge: %s' % (len(wr) == 1 and bool(gate) and not g.must_pass(gate, wr)), g.loc(wr[0]) if wr else '')
     # who writes TCB fields
     writers = collections.defaultdict(set)
@@ -133,6 +138,8 @@ def run(ctx):
                 writers[ch[-1][1]].add(fid)
     rep.check(r2, writers.get('proto_id', set()) <= {'proto::repl', 'proto::tcb::add_tcb'} and writers.get('smack_state', set()) <= {'proto::repl', 'proto::tcb::add_tcb'} and
               writers.get('proto_state', set()) <= {'proto::http::repl', 'proto::rpc::repl_tcp', 'proto::tcb::add_tcb'}, 'tcb-writers', 'writers: %s' % {k: sorted(v) for k, v in writers.items()})
+    okc, kc, dc = insert_complete(F)
+    rep.check(r2, okc, kc, 'every validated flow gets its control block (else its segments are parsed one by one, statelessly): ' + dc, '%s:%d' % (F.fn('proto::tcb::add_tcb').file, F.fn('proto::tcb::add_tcb').line))
     # sticky id: writes of proto_id in proto::repl: search result under proto_id == NONE, or NONE in the default arm
     pw = []
     for bi, blk in enumerate(pr.blocks):
@@ -175,3 +182,6 @@ def run(ctx):
     ok = not (persists and sn and cur_only and not buffered)
     rep.check(r4, ok, 'proto::repl:handler-input=current-segment',
               'matcher state persists across segments: %s; handlers given only the current segment: %s; control-block fields that could buffer earlier bytes: %s' % (persists, [h.split("::")[-2] for h in cur_only], buffered), pr.loc(sn[0]) if sn else '')
+    dispatch_sound(ctx, 'C11', 'a stream reaches the HTTP / RPC parser')
+
+
